@@ -318,24 +318,75 @@ func newCase(sch *crypto.Scheme, n, thr, me int, period, genesis, now int64, sto
 
 var mutations = []string{"", "", "", "flip", "trunc", "short", "wrongmsg"}
 
+// advance moves the node's clock by d seconds (at most up to the next round boundary) so that a
+// woken catch-up sleeper and a tick never fall into the same clock advance: the node never rests
+// at the offset from which a sleeper would be due exactly at a boundary, and a boundary is
+// reached by a separate one-second step.
+func (c *caseRun) advance(d int64) {
+	w := c.w
+	if d <= 0 {
+		return
+	}
+	off := func(t int64) int64 { return ((t-w.Genesis)%w.Period + w.Period) % w.Period }
+	forbidden := (w.Period - w.Catchup%w.Period) % w.Period
+	target := w.Now() + d
+	if off(target) == forbidden && off(target) != 0 {
+		target++ // still inside the round or exactly the boundary
+	}
+	if off(target) == 0 && target-1 > w.Now() {
+		c.do(Event{Kind: "adv", D: target - 1 - w.Now()})
+	}
+	if target > w.Now() {
+		c.do(Event{Kind: "adv", D: target - w.Now()})
+	}
+}
+
 // genScenario drives a random scenario through the node under test.
 func genScenario(c *caseRun, rng *rand.Rand, steps int) {
 	w := c.w
 	n := w.Epochs[0].N
 	c.do(Event{Kind: "start"})
 	// reach genesis
-	c.do(Event{Kind: "adv", D: w.Genesis - w.Now()})
+	c.advance(w.Genesis - w.Now())
+	transitioned := false
+	wantTransition := rng.Intn(2) == 0
 	for i := 0; i < steps; i++ {
 		cur := w.CurrentRound()
 		head := w.Head()
+		// the epoch whose shares count at the node right now
+		live := 0
+		for i, e := range w.Epochs {
+			if e.Group == w.H.VerifLiveGroup() {
+				live = i
+			}
+		}
+		n = w.Epochs[live].N
+		ep := live
+		if transitioned && rng.Intn(5) == 0 {
+			ep = rng.Intn(len(w.Epochs)) // sometimes a share of the other epoch
+		}
+		if wantTransition && !transitioned && i > steps/3 && c.r.ticking {
+			// reshare: new polynomial for the same secret, possibly another size / threshold
+			shapes := [][2]int{{3, 2}, {4, 3}, {5, 3}, {4, 2}, {5, 4}}
+			sh := shapes[rng.Intn(len(shapes))]
+			if sh[0] <= w.Me {
+				sh = [2]int{w.Me + 1, w.Me/2 + 1}
+				if sh[1] < 2 && sh[0] > 1 {
+					sh[1] = 2
+				}
+			}
+			c.do(Event{Kind: "transition", From: sh[0], Claim: sh[1], Round: cur + 2 + uint64(rng.Intn(2))})
+			transitioned = true
+			continue
+		}
 		switch x := rng.Intn(100); {
 		case x < 22: // move the clock, never across more than one round boundary
 			toNext := w.Genesis + int64(cur)*w.Period - w.Now()
-			d := toNext
 			if rng.Intn(3) == 0 && toNext > 1 {
-				d = 1 + rng.Int63n(toNext-1)
+				c.advance(1 + rng.Int63n(toNext-1))
+			} else {
+				c.advance(toNext)
 			}
-			c.do(Event{Kind: "adv", D: d})
 		case x < 70: // a well-formed partial for the round being aggregated (or around it)
 			from := rng.Intn(n)
 			round := head + 1
@@ -351,7 +402,10 @@ func genScenario(c *caseRun, rng *rand.Rand, steps int) {
 			case 3:
 				round = head + 2
 			}
-			c.do(Event{Kind: "part", From: from, Claim: from, Round: round, Prev: "ref"})
+			if from >= w.Epochs[ep].N {
+				from = rng.Intn(w.Epochs[ep].N)
+			}
+			c.do(Event{Kind: "part", From: from, Claim: from, Round: round, Prev: "ref", Ep: ep})
 		case x < 88: // forged / malformed partials
 			from := rng.Intn(n)
 			claim := from
@@ -372,7 +426,10 @@ func genScenario(c *caseRun, rng *rand.Rand, steps int) {
 			if round == 0 {
 				round = 1
 			}
-			c.do(Event{Kind: "part", From: from, Claim: claim, Round: round, Prev: prev, Mut: mut})
+			if from >= w.Epochs[ep].N {
+				from = rng.Intn(w.Epochs[ep].N)
+			}
+			c.do(Event{Kind: "part", From: from, Claim: claim, Round: round, Prev: prev, Mut: mut, Ep: ep})
 		case x < 92:
 			c.do(Event{Kind: "syncmode", Sync: []string{"off", "honest"}[rng.Intn(2)]})
 		case x < 96:
@@ -380,17 +437,17 @@ func genScenario(c *caseRun, rng *rand.Rand, steps int) {
 				c.do(Event{Kind: "stop"})
 				// while stopped only the clock moves
 				toNext := w.Genesis + int64(w.CurrentRound())*w.Period - w.Now()
-				c.do(Event{Kind: "adv", D: toNext})
+				c.advance(toNext)
 				c.do(Event{Kind: "restart"})
 			}
 		default:
 			// complete the round honestly: thr-1 other members deliver valid partials
 			cnt := 0
-			for j := 0; j < n && cnt < w.Epochs[0].Thr; j++ {
+			for j := 0; j < n && cnt < w.Epochs[live].Thr; j++ {
 				if j == w.Me {
 					continue
 				}
-				c.do(Event{Kind: "part", From: j, Claim: j, Round: w.Head() + 1, Prev: "ref"})
+				c.do(Event{Kind: "part", From: j, Claim: j, Round: w.Head() + 1, Prev: "ref", Ep: live})
 				cnt++
 			}
 		}
@@ -414,7 +471,7 @@ func Run(out string, seed int64, tier string) error {
 		sh := shapes[rng.Intn(len(shapes))]
 		me := rng.Intn(sh[0])
 		store := []string{"memdb", "bolt"}[rng.Intn(2)]
-		period := int64(2 + 2*rng.Intn(3))
+		period := int64(3 + rng.Intn(4))
 		desc := fmt.Sprintf("scheme=%s n=%d thr=%d me=%d store=%s period=%d", sch.Name, sh[0], sh[1], me, store, period)
 		c, err := newCase(sch, sh[0], sh[1], me, period, 1000, 1000-int64(1+rng.Intn(5)), store, desc, steps+8)
 		if err != nil {
